@@ -255,6 +255,8 @@ def op_gen_params(op, root, opdir, cap):
         kw["lib"] = list(op["lib"])
     if op.get("dsdna"):
         kw["dsdna"] = True
+    if op.get("mods"):
+        kw["mods"] = [list(m) for m in op["mods"]]
     g = op["graph"]
     if g["kind"] == "seq":
         kw["seq"] = list(g["seq"])
@@ -423,7 +425,11 @@ def roundtrip_check(op, root, cap, atypes, requested_graph, log_msgs):
         top += ['#include "molecules/all.itp"', "[ system ]", "rt", "[ molecules ]", f"{name} 1"]
         tp = os.path.join(tdir, "rt.top")
     else:
-        top += [f'#include "{os.path.abspath(out)}"', "[ system ]", "rt", "[ molecules ]", f"{name} 1"]
+        top += [f'#include "{os.path.abspath(out)}"']
+        if op.get("read_with_case_decoy") and name.lower() != name:
+            # another moleculetype whose name differs only in case, defined AFTER the generated one
+            top += ["[ moleculetype ]", f"{name.lower()} 1", "[ atoms ]", f"1 {exp_first_type(cap)} 1 DEC DC 1 0.0 1.0"]
+        top += ["[ system ]", "rt", "[ molecules ]", f"{name} 1"]
         tp = os.path.join(tdir, "rt.top")
     with open(tp, "w") as fh:
         fh.write("\n".join(top) + "\n")
